@@ -171,6 +171,28 @@ pub fn panic_msg(p: Box<dyn std::any::Any + Send>) -> String {
     s
 }
 
+/// the provided methods that take an iterator by value; `f` sees every element the method hands over
+fn by_value<I, X>(it: I, mode: &str, f: &mut dyn FnMut(X)) -> Option<usize>
+where
+    I: DoubleEndedIterator<Item = X>,
+{
+    match mode {
+        "fold" => it.fold((), |(), x| f(x)),
+        "rfold" => it.rfold((), |(), x| f(x)),
+        "for_each" => it.for_each(|x| f(x)),
+        "collect" => it.collect::<Vec<X>>().into_iter().for_each(|x| f(x)),
+        "rev_collect" => it.rev().collect::<Vec<X>>().into_iter().for_each(|x| f(x)),
+        "count" => return Some(it.count()),
+        "last" => {
+            if let Some(x) = it.last() {
+                f(x)
+            }
+        }
+        _ => it.for_each(|x| f(x)),
+    }
+    None
+}
+
 /// runs `f` as one recorded call
 pub fn call<R>(ev: &mut Ev, fault: Option<(Kind, u32)>, f: impl FnOnce() -> R) -> Option<R> {
     tracked::begin_call();
@@ -1179,6 +1201,58 @@ impl<const N: usize> Drv<N> {
                         ((a - base) / 16) as i64
                     }
                 };
+                // provided methods that take the iterator by value (an implementation may override them): the view
+                // is consumed and dropped by the call, recorded as v_rest (what was produced) followed by v_drop
+                let mode = gs(st, "acc").to_string();
+                if !mode.is_empty() && fault.is_none() {
+                    ev.acc = mode.clone();
+                    let back = mode == "rfold" || mode == "rev_collect";
+                    ev.i = back as i64;
+                    let slot = self.views[v as usize].take().unwrap();
+                    let mut count: Option<usize> = None;
+                    let r = call(&mut ev, None, || match slot.view {
+                        View::It(it) => count = by_value(it, &mode, &mut |x: &Tracked| {
+                            ids.push(x.lid());
+                            slots.push(slot_of(x));
+                        }),
+                        View::ItMut(it) => count = by_value(it, &mode, &mut |x: &mut Tracked| {
+                            ids.push(x.lid());
+                            slots.push(slot_of(x));
+                        }),
+                        View::Dr(it) => count = by_value(it, &mode, &mut |x: Tracked| {
+                            ids.push(x.lid());
+                            vals.push(x);
+                        }),
+                        View::Into(it) => count = by_value(it, &mode, &mut |x: Tracked| {
+                            ids.push(x.lid());
+                            vals.push(x);
+                        }),
+                    });
+                    self.held.extend(vals);
+                    if r.is_some() {
+                        ev.ret = match (mode.as_str(), count) {
+                            ("count", Some(n)) => Ret::num(n as i64),
+                            ("last", _) => match ids.first() {
+                                Some(id) => Ret { k: "some", ids: vec![*id], slots: slots.clone(), ..Default::default() },
+                                None => Ret::none(),
+                            },
+                            _ => Ret { k: "ids", ids, slots, ..Default::default() },
+                        };
+                        ev.allocs = -1;
+                    }
+                    let unw = ev.unw;
+                    self.emit(ev);
+                    if !unw {
+                        let mut e2 = Ev::new("call", "v_drop");
+                        e2.v = v;
+                        e2.h = h;
+                        e2.ret = Ret::unit();
+                        e2.allocs = -1;
+                        e2.post = self.obs(h);
+                        self.emit(e2);
+                    }
+                    return;
+                }
                 let r = call(&mut ev, fault, || match &mut slot.view {
                     View::It(it) => {
                         while let Some(x) = if back { it.next_back() } else { it.next() } {
